@@ -25,12 +25,12 @@ from .common import Ctx, python_flags
 
 RULE = ("(a) helper timelines: period 1 ms-60 s, max_age in {1,1.25,1.5,2,2.5,3,10,1.1,2.7}, initial buffer 1-16, input "
         "period p/8..7p, <=60 samples, 2-12 ticks, boundary stamps T, T-W (±1 µs), future stamps, bursts, silences, "
-        "None/NaN/±inf values, fast sources whose buffer must grow to ~100..1400 samples (around warn 128 / max 1024); (b) the same through Resampler on the virtual loop with lateness scripts; non-trivial = a boundary "
+        "None/NaN/±inf values, resampling functions returning NaN/±inf/±0/denormal or the stock average (30 % of the helper cases), fast sources whose buffer must grow to ~100..1400 samples (around warn 128 / max 1024); (b) the same through Resampler on the virtual loop with lateness scripts; non-trivial = a boundary "
         "stamp, a future stamp, a burst, a silence or a buffer resize occurs; distinct by canonical JSON hash")
 
 CORPUS = pathlib.Path(__file__).resolve().parent.parent / "corpus" / "C08"
 INTERESTING = {"stamp-at-T", "stamp-at-T-W", "future-stamp", "burst", "silence", "resized", "deque-dropped",
-               "infinite-sample", "fast-source"}
+               "infinite-sample", "fast-source", "fn-nan", "fn-inf", "fn--inf", "fn-zero", "fn-negzero", "fn-tiny", "fn-average"}
 
 
 def judge(ctx: Ctx, case: dict, impl: dict, tags: list[str], path: str, pairs: list) -> None:
@@ -161,6 +161,7 @@ def compare(ctx: Ctx, pairs: list) -> None:
         return
     for (case, impl), out in zip(pairs, outs):
         ctx.traces_validated += 1
+        impl = {k: v for k, v in impl.items() if k != "vals"}  # the function's results are judged by the oracle only
         if impl.get("buf") is None:  # public path: final buffer not observed
             out = {k: v for k, v in out.items() if k != "buf"}
             impl = {k: v for k, v in impl.items() if k != "buf"}
